@@ -376,7 +376,12 @@ func (r *connRun) arrive(kind string, c *hcall, errT string, body []byte) {
 		frame = []byte{0x08} // truncated varint: header decode fails
 		act, human = "HArrive HBad", "Arrive bad"
 	case "unknown":
-		frame = pbRespFrame(1<<63+12345, "", nil)
+		var big []byte
+		if r.e.Rng.Intn(2) == 0 {
+			// a frame larger than the connection's read buffer takes the same way through the queues as any other
+			big = bytes.Repeat([]byte{0xA5}, 70000)
+		}
+		frame = pbRespFrame(1<<63+12345, "", big)
 		act, human = "HArrive HUnknown", "Arrive unknown-seq"
 	default:
 		frame = pbRespFrame(c.seq, errT, body)
@@ -808,6 +813,9 @@ func runConn(work, prop string) {
 			}
 		}
 		runOne(r, "random-trace")
+	}
+	if prop == "C02" {
+		connCutStress(e) // a call that nothing completes after the cut is not completed exactly once
 	}
 	if prop == "C03" {
 		connStreamCuts(e)
